@@ -267,6 +267,7 @@ def env_generator_attrs(ctx: Ctx):
     feasibility_guards(ctx)
     mcp_membership_width(ctx)
     mtvrp_horizon_guard(ctx)
+    mtvrp_windows_ordered(ctx)
     # C18.f: MTVRP generator -- time windows / service times are times, built from distances through the speed
     from .. import units
     menv = EnvA(ctx.repo, T.ALL_ENVS["MTVRPEnv"], "MTVRPEnv")
@@ -1211,6 +1212,33 @@ def mtvrp_horizon_guard(ctx: Ctx):
            f"window start = (1 + (H - 1) * u) * d / speed; assertion H >= 1 over all nodes present: {ok} (assertions seen: {seen[:3]})" +
            ("" if ok else " -- without it a short horizon / far customer yields a window that closes before the vehicle can arrive"),
            construct="MTVRPGenerator.generate_time_windows:horizon-guard")
+
+
+def mtvrp_windows_ordered(ctx: Ctx):
+    """C18.r MTVRP time windows are ordered for every draw: `end >= start` by bound lineage (end = start + length with a length
+    the prover shows non-negative), the pair is stacked as (start, end) on the last axis, and the depot's window is [0, max_time].
+    No numbers are computed; `not provable` is reported (the prover knows sums / products of non-negatives and constant folding)."""
+    from ..bounds import Prover
+    g = ctx.repo.get_class("rl4co/envs/routing/mtvrp/generator.py", "MTVRPGenerator")
+    fi = g.methods["generate_time_windows"]
+    it = vg.Interp(ctx.repo, g, inline_policy=lambda f, a: False)
+    fr = it.run_function(fi)
+    ret = fr.ret
+    items = ret.items if isinstance(ret, vg.Tup) else (list(ret.args) if isinstance(ret, vg.S) and ret.op == "tuple" else [])
+    if not items or not isinstance(items[0], vg.S):
+        raise AnalysisError("MTVRPGenerator.generate_time_windows: does not return (time_windows, service_time)")
+    tw = nf.strip(items[0])
+    ok, why = False, "time_windows is not stack((start column, end column), -1)"
+    if nf._fn(tw) == "torch.stack" and nf.axis_is(tw, -1):
+        cols = nf._seq_items(tw.args[1]) or []
+        if len(cols) == 2 and all(nf._fn(nf.strip(c)) in ("torch.cat", "torch.concat") for c in cols):
+            (d0, s_), (d1, e_) = [tuple(nf._seq_items(nf.strip(c).args[1])) for c in cols]
+            P = Prover()
+            ordered = P.ge(e_, s_) and nf.strip(e_) is not nf.strip(s_) and not (nf.poly(e_) == nf.poly(s_))
+            depot_ok = nf._fn(nf.strip(d0)) in ("torch.zeros", "torch.zeros_like") and any(x.op == "selfattr" and x.args[0] == "max_time" for x in vg.walk(d1))
+            ok = ordered and depot_ok
+            why = f"customer windows: end >= start by bound lineage -- {ordered} ({'; '.join(P.trace[-1:]) if not ordered else 'end = start + non-negative length'}); depot window [0, max_time] -- {depot_ok}"
+    ctx.ob("C18.r", "MTVRPGenerator.generate_time_windows:ordered", ok, fi.loc, why, construct="MTVRPGenerator.generate_time_windows:ordered")
 
 
 def mcp_membership_width(ctx: Ctx):
